@@ -4,6 +4,7 @@ import (
 	"context"
 	"fmt"
 	"strings"
+	"sync"
 	"time"
 
 	"github.com/tsuna/gohbase"
@@ -233,8 +234,66 @@ func c09Units(thorough bool) []*explore.Unit {
 	return units
 }
 
+// c09Race: the same kind of scenario, free-running on real goroutines for the
+// race detector (sampling).
+func c09Race() []RaceBody {
+	run := func(layout string, ev string) func(iter int) error {
+		return func(iter int) error {
+			cl := c09Cluster(layout)
+			w := newWorld(cl)
+			var wg sync.WaitGroup
+			errs := make(chan error, 16)
+			for i := 0; i < 3; i++ {
+				i := i
+				wg.Add(1)
+				go func() {
+					defer wg.Done()
+					for j := 0; j < 3; j++ {
+						k := []string{"a", "x", "b"}[(i+j)%3]
+						ctx, cancel := context.WithTimeout(context.Background(), 20*time.Second)
+						g, _ := hrpc.NewGetStr(ctx, "t", k)
+						r, err := w.client.Get(g)
+						cancel()
+						if err != nil {
+							errs <- fmt.Errorf("get %q: %v", k, err)
+							return
+						}
+						if len(r.Cells) != 1 || string(r.Cells[0].Value) != "v:"+k {
+							errs <- fmt.Errorf("get %q: wrong value", k)
+							return
+						}
+					}
+				}()
+			}
+			wg.Add(1)
+			go func() {
+				defer wg.Done()
+				time.Sleep(time.Duration(iter%5) * 300 * time.Microsecond)
+				vrt.HLock()
+				c09Apply(cl, ev)
+				vrt.HUnlock()
+			}()
+			wg.Wait()
+			w.client.Close()
+			select {
+			case e := <-errs:
+				return e
+			default:
+			}
+			return nil
+		}
+	}
+	return []RaceBody{
+		{"coloc/connreset", run("coloc", "connreset")},
+		{"spread/nsre-burst", run("spread", "nsre-burst")},
+		{"three/split", run("three", "split")},
+		{"coloc/server-stopped", run("coloc", "server-stopped")},
+	}
+}
+
 func init() {
 	register(&Prop{
+		Race: c09Race,
 		ID: "C09", Level: "model_checking",
 		Technique: "stateless model checking of the real top-level client (availability channels, establishers, connection cache) over a simulated cluster: concurrent callers x faults x fault positions x all schedules up to a deviation bound; plus a separate free-running -race pass of the same bodies (sampling, reported as such)",
 		Rule: "units = layout {two regions on one shared connection, on two servers, three regions on two servers} x 2-3 concurrent callers (distinct / same / crossing keys) x fault {connection reset, crash with reassignment, NSRE bursts on one region or the whole table, split, split with the daughter still opening, merge, server-stopped exception, move} x {cold burst, warm cache with one request held in flight and the fault fired after the k-th server-side attempt, k=0..3}; every schedule with <=2 deviations for cold bursts, <=1 for positioned faults (thorough: 2-3). Oracle: no panic in any thread (a double release is 'close of nil channel'), every request returns successfully, and once the cluster is stable no cached region is marked unavailable and no client thread is still running. Non-trivial = at least one non-default scheduling choice.",
